@@ -86,6 +86,14 @@ def run(ctx, out):
                 tail = bytes(((i * 7 + tl) & 0xff) for i in range(tl))
                 de_ops.append(f"len.de {style} {C.hexs(p + tail)}")
                 expect.append(f"ok {announced(style, p)} {C.hexs(tail)}")
+    # … and by ANY data: every value of the byte directly behind the prefix (a digit byte F0..F9 behind LLVAR digits, 81 / 82 / FF behind
+    # a BER or APDU length, 00), for a few lengths of every style
+    for style in ("tlv", "adpu", "llv:2", "llv:3"):
+        for n in (0, 1, 9, 42, 99):
+            for b in range(256):
+                tail = bytes([b, 0x31, b])
+                de_ops.append(f"len.de {style} {C.hexs(ref_ser(style, n) + tail)}")
+                expect.append(f"ok {n} {C.hexs(tail)}")
     impl2, model2 = ctx.pair(de_ops)
     out.compare("len.de", de_ops, impl2, model2)
     out.evaluations += len(de_ops)
@@ -125,6 +133,6 @@ def run(ctx, out):
     out.nontrivial |= set(ops3[:0])
     out.exhaustive = True
     out.rule = ("exhaustive: every representable length of tlv/adpu/llv:1-4 and every (N, len<=N) of Fixed<0..17> serialised (implementation vs model vs independent reference prefix), "
-                "each parsed back with 3 different trailers and every strict prefix; boundary and non-minimal prefixes of every style followed by every trailer length 0..520; every 0/1/2-byte string (and a grid or, thorough, 10x65536 3-byte strings) through 8 parsers. "
+                "each parsed back with 3 different trailers and every strict prefix; boundary and non-minimal prefixes of every style followed by every trailer length 0..520; prefixes of five lengths per style followed by every value of the next byte; every 0/1/2-byte string (and a grid or, thorough, 10x65536 3-byte strings) through 8 parsers. "
                 "non-trivial = distinct (style, length) pairs whose prefix was checked against the reference")
     out.samples = [ops[300], ops[70000], de_ops[5], ops3[70000], {"op": de_ops[1000], "impl": impl2[1000], "model": model2[1000]}]
